@@ -1,5 +1,12 @@
 #![doc = include_str!("../README.md")]
 
+#[cfg(feature = "verif")]
+pub mod verif;
+#[cfg(feature = "verif")]
+macro_rules! vp { ($tag:expr) => { crate::verif::point($tag, 0) }; ($tag:expr, $v:expr) => { crate::verif::point($tag, $v as u64) }; }
+#[cfg(not(feature = "verif"))]
+macro_rules! vp { ($($t:tt)*) => {}; }
+
 pub mod uni;
 pub mod multi;
 pub mod stream_executor;
